@@ -164,15 +164,18 @@ Definition read (t : table) (r c : Z) : result cell :=
 Definition py_slice {A} (l : list A) (a b : Z) : list A :=     (* l[a:b] with 0 <= a *)
   firstn (Z.to_nat (b - a)) (skipn (Z.to_nat a) l).
 
+(* repaired: every bound that is given must be a position of the table (a negative end was a Python slice end,
+   a start at or past the edge silently gave nothing); bounds left out default to the table's first / last line *)
+Definition bound_bad (o : option Z) (n : Z) : bool :=
+  match o with Some x => (x <? 0) || (n <=? x) | None => false end.
+
 Definition iter_rows (t : table) (min_row max_row min_col max_col : option Z) : result (list (list cell)) :=
   let r0 := match min_row with Some x => x | None => 0 end in
   let r1 := match max_row with Some x => x | None => nrows t - 1 end in
   let c0 := match min_col with Some x => x | None => 0 end in
   let c1 := match max_col with Some x => x | None => ncols t - 1 end in
-  if r0 <? 0 then Err IndexError else
-  if nrows t <=? r1 then Err IndexError else
-  if c0 <? 0 then Err IndexError else
-  if ncols t <=? c1 then Err IndexError else
+  if bound_bad min_row (nrows t) || bound_bad max_row (nrows t) || bound_bad min_col (ncols t) || bound_bad max_col (ncols t)
+  then Err IndexError else
   Ok (map (fun r => py_slice (nth (Z.to_nat r) (data t) []) c0 (c1 + 1)) (zrange r0 (r1 + 1))).
 
 Definition iter_cols (t : table) (min_col max_col min_row max_row : option Z) : result (list (list cell)) :=
@@ -180,10 +183,8 @@ Definition iter_cols (t : table) (min_col max_col min_row max_row : option Z) : 
   let r1 := match max_row with Some x => x | None => nrows t - 1 end in
   let c0 := match min_col with Some x => x | None => 0 end in
   let c1 := match max_col with Some x => x | None => ncols t - 1 end in
-  if r0 <? 0 then Err IndexError else
-  if nrows t <=? r1 then Err IndexError else
-  if c0 <? 0 then Err IndexError else
-  if ncols t <=? c1 then Err IndexError else
+  if bound_bad min_row (nrows t) || bound_bad max_row (nrows t) || bound_bad min_col (ncols t) || bound_bad max_col (ncols t)
+  then Err IndexError else
   Ok (map (fun c => flat_map (fun row => match nth_error row (Z.to_nat c) with Some x => [x] | None => [] end)
                              (py_slice (data t) r0 (r1 + 1)))
           (zrange c0 (c1 + 1))).
